@@ -12,8 +12,11 @@ import (
 	"strconv"
 	"strings"
 	"sync"
+	"sync/atomic"
 	"testing"
 	"time"
+
+	"github.com/spf13/afero"
 )
 
 // One test binary, three roles (VERIF_MODE): super, worker, replay.
@@ -331,6 +334,15 @@ func replayMain(t *testing.T) {
 		out, _ := cmd.CombinedOutput()
 		if i := strings.Index(string(out), "WARNING: DATA RACE"); i >= 0 && strings.Contains(string(out)[i:], "github.com/pojntfx/stfs/") {
 			v = &Violation{Prop: c.Prop, Oracle: "data-race", Detail: tail(string(out)[i:], 2500)}
+		} else if i := strings.Index(string(out), "RACE-LIN-VIOLATION "); i >= 0 {
+			line := string(out)[i+len("RACE-LIN-VIOLATION "):]
+			if j := strings.Index(line, "\n"); j >= 0 {
+				line = line[:j]
+			}
+			var lv Violation
+			if json.Unmarshal([]byte(line), &lv) == nil {
+				v = &lv
+			}
 		}
 	} else {
 		v = ck.Eval(t, c, NewStats(), relax)
@@ -795,12 +807,15 @@ func writeEvidence(ck *Check, prop, tier string, master uint64, st *Stats, wall 
 
 // ---------------------------------------------------------------- race mode (C11)
 
-// runFree executes the client programs of a C11 case as free-running goroutines
-// (no scheduler, real clock): what the race detector needs.
-func runFree(c *Case) error {
+// runFree executes a C11 case with free-running goroutines (no scheduler, real
+// clock, real parallelism): what the race detector needs. It records the same
+// history as the simulated run (calls stamped with a global event sequence number
+// at invocation and return) so that the linearizability oracle can judge what real
+// threads produced, too.
+func runFree(c *Case) ([]histEntry, error) {
 	w, err := NewWorld(c.Cfg, nil)
 	if err != nil {
-		return err
+		return nil, err
 	}
 	defer w.Close()
 	stk, err := w.Open(OpenOpts{})
@@ -808,33 +823,85 @@ func runFree(c *Case) error {
 		defer stk.Close()
 	}
 	if err != nil {
-		return err
+		return nil, err
 	}
+	var seq atomic.Int64
+	var hist []histEntry
+	noSleep := func(op Op) Op {
+		if op.K == "sleep" { // the real clock is not worth waiting for
+			op.O, op.N = 0, 1000
+		}
+		return op
+	}
+	shared := &SharedHandles{H: map[int]afero.File{}}
+	setup := NewExec(stk.FS, nil)
+	setup.Shared = shared // a shared handle opened during the setup stays open for the clients
+	for _, op := range c.Ops {
+		call := seq.Add(1)
+		res := setup.Do(noSleep(op))
+		hist = append(hist, histEntry{Client: len(c.Progs) + 1, Op: op, Res: res, Call: call, Ret: seq.Add(1)})
+	}
+	setup.CloseAll()
+	results := make([][]histEntry, len(c.Progs))
 	var wg sync.WaitGroup
 	for ci, prog := range c.Progs {
 		wg.Add(1)
 		go func(ci int, prog []Op) {
 			defer wg.Done()
 			ex := NewExec(stk.FS, nil)
+			ex.Shared = shared
 			r := rand.New(rand.NewPCG(c.Seed, uint64(ci)))
+			do := func(op Op) {
+				call := seq.Add(1)
+				res := ex.Do(noSleep(op))
+				ret := seq.Add(1)
+				results[ci] = append(results[ci], histEntry{Client: ci, Op: op, Res: res, Call: call, Ret: ret})
+			}
 			for _, op := range prog {
 				if r.IntN(4) == 0 {
 					time.Sleep(time.Duration(r.IntN(200)) * time.Microsecond)
 				}
-				ex.Do(op)
+				do(op)
 			}
-			ex.CloseAll()
+			for h := range ex.H {
+				do(Op{K: "h.close", H: h})
+			}
 		}(ci, prog)
 	}
 	done := make(chan struct{})
 	go func() { wg.Wait(); close(done) }()
 	select {
 	case <-done:
-		Observe(stk.FS, "/", ObsOpts{})
-		return nil
 	case <-time.After(90 * time.Second):
-		return fmt.Errorf("timeout")
+		return nil, fmt.Errorf("timeout")
 	}
+	for _, r := range results {
+		hist = append(hist, r...)
+	}
+	for h := range shared.H {
+		ex := NewExec(stk.FS, nil)
+		ex.Shared = shared
+		call := seq.Add(1)
+		res := ex.Do(Op{K: "h.close", H: h})
+		hist = append(hist, histEntry{Client: len(c.Progs) + 2, Op: Op{K: "h.close", H: h}, Res: res, Call: call, Ret: seq.Add(1)})
+	}
+	call := seq.Add(1)
+	tree, probs := Observe(stk.FS, "/", ObsOpts{})
+	hist = append(hist, histEntry{Client: len(c.Progs), Op: Op{K: "final-tree"}, Call: call, Ret: seq.Add(1), Final: tree, Probs: probs})
+	return hist, nil
+}
+
+// freeVerdict runs the case once free-running and judges the recorded history.
+func freeVerdict(c *Case, st *Stats) (*Violation, error) {
+	hist, err := runFree(c)
+	if err != nil {
+		return nil, err
+	}
+	v := judgeLinearizable("C11", hist, true, st)
+	if v != nil {
+		v.Oracle = "not-linearizable-real-threads"
+	}
+	return v, nil
 }
 
 func raceMain(t *testing.T) {
@@ -849,20 +916,35 @@ func raceMain(t *testing.T) {
 		if err != nil {
 			os.Exit(2)
 		}
-		for i := 0; i < 5; i++ {
-			runFree(c)
+		for i := 0; i < 20; i++ {
+			if v, _ := freeVerdict(c, NewStats()); v != nil {
+				b, _ := json.Marshal(v)
+				fmt.Println("RACE-LIN-VIOLATION " + string(b))
+				os.Exit(67)
+			}
 		}
 		return
 	}
 	n := 0
+	st := NewStats()
+	defer func() {
+		fmt.Printf("RACE-STATS lin=%d inconclusive=%d\n", st.C["linearizable_histories"], st.C["linearizability_inconclusive"])
+	}()
 	for idx := uint64(wi); idx < uint64(runs) && time.Now().Before(deadline); idx += uint64(nw) {
 		seed := mix(master, idx)
+		relax["threads"] = true
 		c := ck.Gen(rand.New(rand.NewPCG(seed, 0xC0FFEE)), tierOf(), relax)
 		c.Prop, c.Seed = "C11", seed
 		fmt.Printf("RACE-START %d %d\n", idx, seed)
-		if err := runFree(c); err != nil {
-			fmt.Printf("RACE-TIMEOUT %d\n", idx)
+		v, err := freeVerdict(c, st)
+		if err != nil {
+			fmt.Printf("RACE-TIMEOUT %d %v\n", idx, err)
 			os.Exit(3)
+		}
+		if v != nil {
+			b, _ := json.Marshal(v)
+			fmt.Println("RACE-LIN-VIOLATION " + string(b))
+			os.Exit(67)
 		}
 		n++
 	}
@@ -878,7 +960,7 @@ func raceMode(master uint64, tier, relaxCSV string, total *Stats) ([]string, boo
 		total.Add("race_mode_skipped", 1)
 		return nil, true
 	}
-	nw, secs, runs := 4, 20, 400
+	nw, secs, runs := 4, 30, 400
 	if tier == "thorough" {
 		secs, runs = 600, 20000
 	}
@@ -899,7 +981,40 @@ func raceMode(master uint64, tier, relaxCSV string, total *Stats) ([]string, boo
 			defer mu.Unlock()
 			n := strings.Count(text, "RACE-START")
 			total.Add("race_mode_runs", int64(n))
+			for _, l := range strings.Split(text, "\n") {
+				var a, b int64
+				if n, _ := fmt.Sscanf(l, "RACE-STATS lin=%d inconclusive=%d", &a, &b); n == 2 {
+					total.Add("real_thread_histories_linearizable", a)
+					total.Add("real_thread_histories_inconclusive", b)
+				}
+			}
 			if err == nil {
+				return
+			}
+			if i := strings.Index(text, "RACE-LIN-VIOLATION "); i >= 0 && !strings.Contains(text, "WARNING: DATA RACE") {
+				var idx, seed uint64
+				for _, l := range strings.Split(text[:i], "\n") {
+					fmt.Sscanf(l, "RACE-START %d %d", &idx, &seed)
+				}
+				var v Violation
+				line := text[i+len("RACE-LIN-VIOLATION "):]
+				if j := strings.Index(line, "\n"); j >= 0 {
+					line = line[:j]
+				}
+				if json.Unmarshal([]byte(line), &v) != nil {
+					fmt.Printf("race worker %d: unreadable verdict: %s\n", i, tail(text, 1500))
+					broken = true
+					return
+				}
+				ck := Checks["C11"]
+				c := ck.Gen(rand.New(rand.NewPCG(seed, 0xC0FFEE)), tier, parseRelax(relaxCSV+",threads"))
+				c.Prop, c.Seed, c.Tier = "C11", seed, tier
+				c.S["mode"] = "race"
+				c.Expect = &v
+				p := filepath.Join(workRoot(), "replays", fmt.Sprintf("C11-%d-threads-%d.json", master, idx))
+				writeCase(p, c)
+				fmt.Printf("violation: %s\n(real threads, run idx=%d seed=%d; the replay re-runs the same client programs free-running, up to 20 times)\n", v.String(), idx, seed)
+				violations = append(violations, fmt.Sprintf("VIOLATION property=C11 replay=%s", p))
 				return
 			}
 			if !strings.Contains(text, "WARNING: DATA RACE") {
@@ -920,7 +1035,7 @@ func raceMode(master uint64, tier, relaxCSV string, total *Stats) ([]string, boo
 				fmt.Sscanf(l, "RACE-START %d %d", &idx, &seed)
 			}
 			ck := Checks["C11"]
-			c := ck.Gen(rand.New(rand.NewPCG(seed, 0xC0FFEE)), tier, parseRelax(relaxCSV))
+			c := ck.Gen(rand.New(rand.NewPCG(seed, 0xC0FFEE)), tier, parseRelax(relaxCSV+",threads"))
 			c.Prop, c.Seed, c.Tier = "C11", seed, tier
 			c.S["mode"] = "race"
 			c.Expect = &Violation{Prop: "C11", Oracle: "data-race", Detail: tail(report, 2500)}
